@@ -534,16 +534,22 @@ theorem nullStr_eq : Gen.Pretty.nullStr.toList = [110, 117, 108, 108] := by deci
 theorem trueStr_eq : Gen.Pretty.trueStr.toList = [116, 114, 117, 101] := by decide
 theorem falseStr_eq : Gen.Pretty.falseStr.toList = [102, 97, 108, 115, 101] := by decide
 
-theorem layoutOf_ws (hsp : (Gen.Pretty.spaces.toList.all Spec.isWs) = true) (w : PW) (d : Nat) (flat : Bool) :
+/-- the generated separators and the indentation constant are white space -/
+structure SepWs : Prop where
+  spaces : (Gen.Pretty.spaces.toList.all Spec.isWs) = true
+  flat : (Gen.PrettyFill.flatCs.toList.all Spec.isWs) = true
+  deep : (Gen.PrettyFill.deepFlatCs.toList.all Spec.isWs) = true
+
+theorem layoutOf_ws (hsp : SepWs) (w : PW) (d : Nat) (flat : Bool) :
     ((layoutOf w d flat).1.all Spec.isWs) = true ∧ ((layoutOf w d flat).2.1.all Spec.isWs) = true := by
   unfold layoutOf
   split
-  · exact ⟨by decide, rfl⟩
+  · exact ⟨hsp.flat, rfl⟩
   · split
-    · exact ⟨rfl, rfl⟩
-    · exact ⟨all_take_drop _ _ hsp _ _, all_take_drop _ _ hsp _ _⟩
+    · exact ⟨hsp.deep, rfl⟩
+    · exact ⟨all_take_drop _ _ hsp.spaces _ _, all_take_drop _ _ hsp.spaces _ _⟩
 
-theorem lay_ws (hsp : (Gen.Pretty.spaces.toList.all Spec.isWs) = true) (w : PW) (ord : Kvs → Kvs) (f : Nat) (v : JV)
+theorem lay_ws (hsp : SepWs) (w : PW) (ord : Kvs → Kvs) (f : Nat) (v : JV)
     (d : Nat) (flat : Bool) :
     ((lay w ord f v d flat).1.all Spec.isWs) = true ∧ ((lay w ord f v d flat).2.1.all Spec.isWs) = true :=
   layoutOf_ws hsp w d _
@@ -661,7 +667,7 @@ theorem pMembers_tailK (hs : TableSafe Gen.Root.jMap) (pv : Bytes → Option (JV
 
 /-- the RFC 8259 reader applied to `ptext` gives the tree minus the members the options name, members in
 ascending key order; the reader's fuel only has to exceed the length of the text -/
-theorem parse_ptext (hs : TableSafe Gen.Root.jMap) (hsp : (Gen.Pretty.spaces.toList.all Spec.isWs) = true)
+theorem parse_ptext (hs : TableSafe Gen.Root.jMap) (hsp : SepWs)
     (w : PW) (ord : Kvs → Kvs) (hord : IsOrder ord) :
     ∀ (f : Nat) (v : JV) (d : Nat) (flat : Bool) (g : Nat) (rest : Bytes), okW v → depth v < f →
       (ptext w ord f v d flat).length < g → follows rest = true →
